@@ -202,6 +202,10 @@ Record invocation := {
   fetch : option (list ascii)         (* what the release lookup would return *)
 }.
 
+(* the tag the lookup returned, without surrounding white space (the cache file is line-oriented) *)
+Definition trim (s : list ascii) : list ascii := drop_spaces (rstrip s).
+Definition fetched (i : invocation) : option (list ascii) := option_map trim (fetch i).
+
 (* on-disk cache: None = missing/unreadable.  Returns (notices printed, disk') *)
 Definition check_for_updates (disk : option cache) (i : invocation) : list Z * option cache :=
   if skip_env i then ([], disk) else
@@ -224,7 +228,7 @@ Definition check_for_updates (disk : option cache) (i : invocation) : list Z * o
         | _ => let (p, c1) := maybe_notice (latestV c0) (curv i) (now i) c0 in
                if p then (true, c1, Some c1) else (false, c1, disk)
         end in
-      match fetch i with
+      match fetched i with
       | None => ((if p1 then [now i] else []), disk1)
       | Some t =>
         let c2 := {| latestV := t; lastChecked := now i; lastNotified := lastNotified c1 |} in
@@ -232,7 +236,7 @@ Definition check_for_updates (disk : option cache) (i : invocation) : list Z * o
         ((if p1 then [now i] else []) ++ (if p2 then [now i] else []), Some c3)
       end
   | None =>
-    match fetch i with
+    match fetched i with
     | None => ([], disk)
     | Some t =>
       let c2 := {| latestV := t; lastChecked := now i; lastNotified := lastNotified c0 |} in
